@@ -14,6 +14,10 @@ CHECKS = {
    text="JSON is proved end to end in Coq on a model of the converter: pretty printer (serde_json layout) followed by an independent RFC 8259 parser is the identity, the Val->JSON mapping is lossless (numbers compared as exact rationals) and errors exactly on unrepresentable values; the model's bytes are compared with the implementation's on seeded value trees. YAML, TOML and yamlmulti are partial: their third-party emitters are exercised through independent decoders (PyYAML with YAML 1.2 core resolvers, tomllib) on the same trees",
    note="floats are carried as decimal text (no float arithmetic in Coq); serde_yaml / toml-rs emitters are outside the model; two listed known findings (JSON ints beyond 2^53, toml-rs arrays of tables)",
    technique="Coq proof (JSON printer/parser round trip + mapping) + differential correspondence; independent decoders for YAML/TOML"),
+ "C08": dict(category="proof",
+   text="Coq theorems over a model of the env/flags/exec converters and of POSIX word splitting and quote removal: for ALL byte strings a single-quoted value reads back as exactly one unaltered word and a double-quoted assignment value as the original string with nothing expanded; env yields every scalar field once and in order; flags and exec scripts read back as their specification. The escape chains are regenerated from src/convert/mod.rs on every run and proved (finite obligation over all 256 bytes) to compute the character-wise escapers the theorems use. Tied to the real converters byte-for-byte on all strings up to length 4 (quick) / 5 (thorough) over the quoting alphabet in six placements, and the outputs are read back by dash and bash",
+   note="field, flag and variable names are assumed plain identifiers (the converters do not escape names); the shell model is validated against dash/bash on the same outputs; floats enter as their Display text",
+   technique="Coq proof (induction over the string through a quote-state machine) + generated escape chains + exhaustive correspondence + real shells"),
  "C13": dict(category="proof",
    text="Coq state machine of the assertion collector and the `ucg test` driver: the verdict of each file equals its specification (builds and all assertions ok), independent of the other files and their order, exit status non-zero iff some file fails, each assertion logged exactly once; a lemma shows the shared collector of the original code refuted this. Tied to the real binary by running generated test files in every order and comparing verdicts, logs and exit status with the extracted model and with the generator's ground truth",
    note="per-file build abstracted to the list of asserted values; asserts in imported files and directory recursion order not modelled",
